@@ -296,17 +296,38 @@ def check(pid, tier="quick", seed=1, replay=None):
                 pass
 
     # 4. classify
-    violations = []      # (kind, case, impl, model, tags)
-    for c, i, m, t in zip(cases, impl, model, tags):
-        if m.startswith("MODEL-SPEC-MISMATCH"):
-            violations.append(("model-vs-spec", c, i, m, t))
-        elif m == "SKIP":
-            continue
-        elif i != m:
-            violations.append(("impl-vs-model", c, i, m, t))
-    for o in oracle:
-        f = (o.split("\t") + ["", ""])[:3]
-        violations.append(("impl-vs-oracle", f[0], f[1], "", f[2]))
+    def classify(cases, impl, model, tags, oracle):
+        vs = []      # (kind, case, impl, model, tags)
+        for c, i, m, t in zip(cases, impl, model, tags):
+            if m.startswith("MODEL-SPEC-MISMATCH"):
+                vs.append(("model-vs-spec", c, i, m, t))
+            elif m == "SKIP":
+                continue
+            elif i != m:
+                vs.append(("impl-vs-model", c, i, m, t))
+        for o in oracle:
+            f = (o.split("\t") + ["", ""])[:3]
+            vs.append(("impl-vs-oracle", f[0], f[1], "", f[2]))
+        return vs
+    violations = classify(cases, impl, model, tags, oracle)
+    skipped = sum(1 for m in model if m == "SKIP")
+
+    # 4b. a proof obligation or the translation tie broke but the normal run shows no failing
+    # input: search harder (thorough generator, other seed) before reporting without a witness
+    searched = 0
+    if (proof_broken or t_lost) and not violations and cb_ok and drv_ok and not replay:
+        d = os.path.join(workdir, "search")
+        n = str(prop.get("search_cases", 200000))
+        if run_harness(h["bin"], ["gen", "--seed", str(seed + 7919), "--tier", "thorough", "--cases", n], d, log):
+            c = read_lines(os.path.join(d, "cases.txt"))
+            i = read_lines(os.path.join(d, "impl.txt"))
+            t = read_lines(os.path.join(d, "tags.txt"))
+            if run_driver(pid, os.path.join(d, "cases.txt"), os.path.join(d, "model.txt"), log):
+                m = read_lines(os.path.join(d, "model.txt"))
+                if len(m) == len(c) == len(i):
+                    searched = len(c)
+                    violations = classify(c, i, m, t if len(t) == len(c) else [""] * len(c),
+                                          read_lines(os.path.join(d, "oracle.txt")))
 
     new, known_hits = [], {}
     for v in violations:
@@ -357,7 +378,7 @@ def check(pid, tier="quick", seed=1, replay=None):
                 "lean_errors": errors[:20], "source_audit": audit_hits, "translator_lost": t_lost,
                 "infrastructure": infra_problem,
                 "note": "the proof obligations / correspondence named here no longer check; the search over %d "
-                        "generated cases found no input on which the implementation disagrees with the specification" % len(cases)}
+                        "generated cases found no input on which the implementation disagrees with the specification" % (len(cases) + searched)}
         replay_path = write_replay("theorem-broken" if proof_broken else "correspondence-broken", body)
         out_lines.append("VIOLATION property=%s replay=%s no-failing-input-found" % (pid, replay_path))
         exit_code = 1
@@ -393,6 +414,8 @@ def check(pid, tier="quick", seed=1, replay=None):
             "branches": branches,
             "disagreements_checked": len(violations),
             "known_finding_cases": sum(len(v) for v in known_hits.values()),
+            "skipped_by_model": skipped,
+            "search_cases_after_broken_proof": searched,
             "translator_lost": t_lost,
             "repo_rev": rev + ("+dirty" if dirty else ""),
         },
